@@ -1249,7 +1249,7 @@ func (f *Frame) unop(x *ssa.UnOp) *SVal {
 		}
 		if hasRefs(et) {
 			if ver := g.versionOf(st, v, et); ver != "" {
-				g.assume(f.curReach, g.refFactsVer(f.curState, ver, r))
+				g.assume(f.curReach, g.refFactsAt(f.curState, ver, v, r))
 			} else {
 				g.assume(f.curReach, g.refFacts(f.curState, r))
 			}
